@@ -222,6 +222,29 @@ def fmtGeneral (x : Float) : List Nat :=
     let ex := dp - 1
     sign ++ (if ex < -9 ∨ ex ≥ 15 then fmtE ds dp 69 2 else fmtF ds dp)
 
+/-! ### the final rendering of a numeric result by `CalcCellValue` (RawCellValue)
+
+`isNumeric(token.Value())` yields the float and a "precision" = the length of its shortest
+positional spelling (`FormatFloat(x,'f',-1)`) without the decimal point — sign and leading zeros
+included; above 15 the value is rendered with `FormatFloat(x,'G',15)` (15 significant digits of
+the exact binary value, ties to even, trailing zeros dropped, `E±XX` form when the decimal
+exponent is < −4 or ≥ 15), otherwise with the shortest positional spelling. -/
+
+def renderNumber (x : Float) : List Nat :=
+  let d := decode x
+  if d.kind ≠ 0 then fmtG x
+  else
+    let sign := if d.neg then [45] else []
+    if d.m = 0 then sign ++ [48]
+    else
+      let (ds, dp) := shortest d.m d.e
+      let sf := sign ++ fmtF ds dp
+      if (sf.filter (· ≠ 46)).length > 15 then
+        let (ds15, dp15) := roundSig d.m d.e 15
+        let ex := dp15 - 1
+        sign ++ (if ex < -4 ∨ ex ≥ 15 then fmtE ds15 dp15 69 2 else fmtF ds15 dp15)
+      else sf
+
 /-! ### Go's math.Pow -/
 
 def isOddInt (y : Float) : Bool :=
